@@ -12,6 +12,7 @@ structure SameConfig (a b : Envelope) : Prop where
   kdfAlg : b.kdfAlgorithm = a.kdfAlgorithm
   kdfPar : b.kdfParameters = a.kdfParameters
   secAlg : b.secretAlgorithm = a.secretAlgorithm
+  secPar : b.secretParameters = a.secretParameters
   privLen : b.privateKeyLength = a.privateKeyLength
 
 /-- Nonce mode: the KEK computed when encrypting (from a random nonce and the L2 key the sender
@@ -41,12 +42,18 @@ theorem kek_agree_nonce (C : Crypto) (es er : Envelope) (rnd kek : Bytes) (kid :
 /-- DH public-key mode: the sender only has the group public key `y = g^x mod p` (x derived by the
     seed holder from the L2 key) and a fresh ephemeral `e`; it stores `g^e mod p` in the blob.  The
     seed holder recovers the same KEK.  Includes every shared secret / public value with leading
-    zero bytes: both sides pad to `key_length`. -/
+    zero bytes: both sides pad to `key_length`.  Since the fix that validates the peer's value (D15) both
+    public values must be valid in the sense of SP 800-56A 5.6.2.3.1 (2 ≤ y ≤ p − 2; `hgy`, `hge`) and the
+    root key's FFC parameters, when present, must name the same group (`hgrp`). -/
 theorem kek_agree_dh (C : Crypto) (ep er : Envelope) (rnd kek seed : Bytes) (kid : KeyId) (alg : Hash) (kl p g : Nat)
     (hpub : ep.isPublicKey = true) (hr : er.isPublicKey = false) (hc : SameConfig ep er)
     (hsa : ep.secretAlgorithm = dhName)
     (hL2 : ∀ a, computeL2 C a ep.l1 ep.l2 er = .ok seed)
     (hkl : kl < 2 ^ 32) (hp0 : 0 < p) (hpw : p ≤ 256 ^ kl) (hg : g < 256 ^ kl)
+    (hgrp : ep.secretParameters = [] ∨ ∃ q, ffcParamsUnpack ep.secretParameters = .ok q ∧ q.fieldOrder = p ∧ q.generator = g)
+    (hvalid_group : 1 < Py.powMod g (Py.fromBE (C.kdf alg seed kdsServiceLabel (dhName ++ [0, 0]) (Py.ceilDiv8 ep.privateKeyLength))) p ∧
+      Py.powMod g (Py.fromBE (C.kdf alg seed kdsServiceLabel (dhName ++ [0, 0]) (Py.ceilDiv8 ep.privateKeyLength))) p < p - 1)
+    (hvalid_eph : 1 < Py.powMod g (Py.fromBE rnd) p ∧ Py.powMod g (Py.fromBE rnd) p < p - 1)
     (hkey : ffcKeyPack ⟨kl, p, g, Py.powMod g
         (Py.fromBE (C.kdf alg seed kdsServiceLabel (dhName ++ [0, 0]) (Py.ceilDiv8 ep.privateKeyLength))) p⟩ = .ok ep.l2Key)
     (hn : newKek C ep rnd = .ok (kek, kid))
@@ -81,7 +88,9 @@ theorem kek_agree_dh (C : Crypto) (ep er : Envelope) (rnd kek seed : Bytes) (kid
     obtain ⟨alg', h2, hn⟩ := bind_eq_ok hn
     have : alg' = alg := by have := halg hname h1; rw [h2] at this; cases this; rfl
     subst this
-    simp only [hpub, if_true, hsa, computeKek_dh C alg' rnd ep.l2Key _ hunp hp0 hpw,
+    have hgrp1 : GroupOk ep.secretParameters ⟨kl, p, g, Py.powMod g x p⟩ := hgrp
+    have hgrp2 : GroupOk er.secretParameters ⟨kl, p, g, Py.powMod g (Py.fromBE rnd) p⟩ := by rw [hc.secPar]; exact hgrp
+    simp only [hpub, if_true, hsa, computeKek_dh C alg' ep.secretParameters rnd ep.l2Key _ hunp hgrp1 (by rw [← hx]; exact hvalid_group) hpw,
       computePublicKey_dh C rnd ep.l2Key _ hunp hp0, bind, Except.bind] at hn
     -- the sender's public value packs (it is < p)
     have hmine : Py.powMod g (Py.fromBE rnd) p < 256 ^ kl := Nat.lt_of_lt_of_le (Py.powMod_lt _ _ _ hp0) hpw
@@ -97,7 +106,7 @@ theorem kek_agree_dh (C : Crypto) (ep er : Envelope) (rnd kek seed : Bytes) (kid
       have := hpub; simp only [Envelope.isPublicKey, decide_eq_true_eq] at this; simp [this]
     simp only [hr, Bool.false_eq_true, if_false, hc.l0, ne_eq, not_true_eq_false, hka', hc.kdfPar, h1, h2, bind, Except.bind,
       hL2 alg', KeyId.isPublicKey, hkpub, decide_true, if_true, computeKekFromPublicKey, hc.secAlg, hsa, hc.privLen, hx,
-      computeKek_dh C alg' _ ki _ hunp2 hp0 hpw]
+      computeKek_dh C alg' er.secretParameters _ ki _ hunp2 hgrp2 hvalid_eph hpw]
     rw [Py.dh_agree g x (Py.fromBE rnd) p hp0]
 
 /-- ECDH public-key mode, from the agreement law of the abstract group (`Crypto.Laws.ec_agree`). -/
